@@ -94,7 +94,9 @@ def write_spec(path, main, cc=(1, 'xAy', 'xAy')):
 
 
 GOLDEN = (1, 'xAy', 'xAy')
-CAND = list(itertools.product([1, 0], ['xAy', 'A', 'B'], ['xAy', 'A', 'B']))
+CAND = list(itertools.product([1, 0], ['xAy', 'A', 'B'], ['xAy', 'A', 'B'])) + \
+    [(1, 'xAy ', 'xAy'), (1, 'xAy', ' xAy'), (1, 'xAy\n', 'xAy'),
+     (1, 'xAy', 'xAy\n\n')]
 
 
 def part_b(unit):
